@@ -73,14 +73,18 @@ class Site:
         self.verdict = None
         self.why = ''
 
+    def _trees(self):
+        # compiler temporaries that could not be inlined carry a number: never part of a key
+        return re.sub(r'\b_\d+\b', '_', ' '.join(show(t) for t in self.trees))
+
     @property
     def key(self):
-        return '%s|%s|%s|#%d' % (self.fn.qual, self.kind, ' '.join(show(t) for t in self.trees), self.ordinal)
+        return '%s|%s|%s|#%d' % (self.fn.qual, self.kind, self._trees(), self.ordinal)
 
     @property
     def tkey(self):
         """table key: without ordinal (a table line covers all equal trees in the function)"""
-        return '%s|%s|%s' % (self.fn.qual, self.kind, ' '.join(show(t) for t in self.trees))
+        return '%s|%s|%s' % (self.fn.qual, self.kind, self._trees())
 
 
 def inventory(fn):
